@@ -134,7 +134,9 @@ def finish(pid, pmod, tier, seed, results, wall):
             faults.append(f"{res['contract']}[{res.get('instance', '')}]: {res['error']}")
             if res.get('trace'):
                 sys.stderr.write(res['trace'] + '\n')
-            continue
+            if not res.get('obligations'):
+                continue
+            res.setdefault('function', res['contract'])
         fn = res.get('function', res['contract'])
         functions.setdefault(fn, {'instances': 0, 'obligations': 0, 'paths': 0})
         functions[fn]['instances'] += 1
